@@ -254,7 +254,7 @@ def run(ck):
     canary_trace(ck, "call: one byte of the captured request changed", c4, ic + 1)
     c5 = copy.deepcopy(cb[:ic + 1]); c5[ic]["err"] = "e"; del c5[ic]["res"]
     canary_trace(ck, "call-result: returned value replaced by an error", c5, ic + 1)
-    return ck.finish(rule=RULE, distinct=ck.traces_ok + 0)
+    return ck.finish(rule=RULE, distinct=ck.evaluations)
 
 
 def replay(ck, path):
